@@ -24,10 +24,10 @@ import (
 
 type constGlobal struct {
 	exported bool
-	g    *ssa.Global
-	init ast.Expr
-	info *types.Info
-	err  string
+	g        *ssa.Global
+	init     ast.Expr
+	info     *types.Info
+	err      string
 }
 
 func (p *Prog) constGlobalInfo(pkgPath, name string) *constGlobal {
